@@ -7,6 +7,54 @@ NOTES = ("All checks: ./check <ID> [--tier quick|thorough]; seed from VERIF_SEED
 NOT_APPLICABLE = {}
 
 CHECKS = {
+ "C13": {
+  "level": "exploration",
+  "technique": "property-based testing of generated deterministic Prolog programs against a reference SLD interpreter (ordered answers with duplicates) and a semi-naive least-model evaluator",
+  "text": "Non-recursive programs: ProbLog's answer set equals SLD's and findall/3 returns SLD's list (order and duplicates); recursive Datalog: the answer set equals the least Herbrand model; first-argument indexing is targeted with interleaved ground / variable clause heads and repeated calls on one prepared database.",
+  "note": "No SWI-Prolog in the sandbox: the two reference evaluators are the oracle (cross-checked against each other). findall's node-order reconstruction (F-C13-2/3) is a listed finding.",
+ },
+ "C17": {
+  "level": "exploration",
+  "technique": "token-level Hypothesis fuzzing + mutation of corpus/generated statements (and an atheris coverage-guided campaign in the thorough tier) for parser totality; AST print/parse round trip over the parser's operator table",
+  "text": "Every generated or mutated text must parse or raise a ProbLogError; every term built from supported syntax must print to text that parses back to an equal term (probabilities compared explicitly).",
+  "note": "Eight printer round-trip families are listed findings (a precedence-aware printer exists as an unapplied larger patch); Term.from_string's own ValueError for 0 or 2+ statements is treated as documented.",
+ },
+ "C19": {
+  "level": "exploration",
+  "technique": "property-based testing: generated findall/all programs over probabilistic goals vs per-world ordered solution lists computed by a reference SLD interpreter with exact world weights",
+  "text": "For each generated program the probability of every reported result list must equal the total weight of the worlds whose ordered solution list (Prolog order, duplicates) is that list; all/3 excludes the empty list.",
+  "note": "all/3 keeps one element per distinct answer substitution (documented behaviour, stated in ASSUMPTIONS); node-order findings shared with C13.",
+ },
+ "C20": {
+  "level": "exploration",
+  "technique": "property-based testing: generated programs with evidence vs brute-force MPE over all worlds; validity predicate (consistent with evidence, probability maximal within the MaxSAT quantisation), both MPE modes",
+  "text": "The returned literals must extend to a world that satisfies the evidence, the probability of the reported assignment must be maximal among evidence-consistent assignments (tolerance derived from the weight quantisation; 1e-9 for the semiring mode) and equal the reported probability; unsatisfiable evidence must be reported as such.",
+  "note": "The semiring mode is wrong on non-decomposable formulas and ADs (F-C20-3, a wide class: most non-trivial semiring cases are excluded for it).",
+ },
+ "C22": {
+  "level": "exploration",
+  "technique": "property-based testing with Hypothesis-drawn RNG seeds: per-sample validity against the reference worlds + Hoeffding test of frequencies (delta 1e-9) against the reference conditional probabilities",
+  "text": "Each sample must be a world consistent with the evidence whose printed probability is the product of the choices made; query frequencies (and estimate) must lie within the Hoeffding bound of the reference conditional probability.",
+  "note": "Statistical part detects gross errors only (n = 1500 quick / 10000 thorough samples per program).",
+ },
+ "C23": {
+  "level": "exploration",
+  "technique": "property-based testing: k-best bounds and explain proofs of generated evidence-free programs vs the reference probability",
+  "text": "KBestFormula must return the reference probability or an interval containing it; explain's proofs must be mutually exclusive, carry their recomputed probability and sum to the reference probability of each query.",
+  "note": "maxsatz costs ~0.4 s per call: small budgets. Queries that share a ground node are a listed finding for explain (F-C23-1).",
+ },
+ "C24": {
+  "level": "exploration",
+  "technique": "property-based testing: generated learnable programs and datasets sampled from the reference distribution; EM invariants (monotone log-likelihood, valid parameters, AD sums) and closed-form complete-data MLE",
+  "text": "LFIProblem.prepare()/step() is driven k times: the log-likelihood sequence must not decrease, every weight must be a probability, AD weights must sum to <= 1, and with complete observations one step must give the relative frequencies.",
+  "note": "Monotonicity without normalisation for learnable ADs (F-C24-1) and ADs mixing fixed and tunable heads (F-C24-3) are listed findings.",
+ },
+ "C27": {
+  "level": "exploration",
+  "technique": "property-based fuzzing: every registered builtin with generated argument shapes, ill-formed probabilistic constructs and token-level fuzzed programs through full inference; outcome must be results or a ProbLogError",
+  "text": "Any program text run through inference must return results or raise a ProbLogError subclass; internal Python exceptions are failures bucketed by call site.",
+  "note": "Resource exhaustion is inconclusive. 27 crash sites were repaired; the state builtins' AssertionError after the import repair is a listed finding.",
+ },
  "C09": {
   "level": "translation_validation",
   "technique": "translation validation of every cycle-breaking / Clark-completion instance from generated programs, exhaustively over all atom assignments (bitmask truth tables, least-model semantics of the cyclic formula)",
